@@ -11,8 +11,14 @@ func FilterTG(p *prog.Program, log []Rec) []Rec {
 	for _, r := range log {
 		switch r.Ev {
 		case "init", "started", "req", "ans", "again", "error", "cease", "fin", "wait", "timeout", "blocked",
-			"listening", "observed", "deliver", "delivered", "cancel", "infra", "other", "cand", "ansc", "crash":
+			"observed", "deliver", "delivered", "cancel", "infra", "other", "cand", "ansc", "crash", "determination":
 			out = append(out, r)
+		case "visit", "listening":
+			// arrival at / arming of intermediate catch events only (boundary
+			// listeners are armed by the host activity, not by a token)
+			if n := p.Node(r.Node); n != nil && n.Kind == "catch" {
+				out = append(out, r)
+			}
 		case "completion":
 			if n := p.Node(r.Node); n != nil && n.Kind == "end" && n.Scope == "" {
 				r.Ev = "end"
